@@ -112,9 +112,7 @@ Proof.
         pose proof (cnt_adel_hit p M (piggy s) (rpeer r, a_token a) h Eg E1). lia.
       - pose proof (cnt_adel_le p M (piggy s) (rpeer r, a_token a)). lia. }
     destruct (no_response_of a).
-    + destruct (rlocal r =? 0).
-      * inv H. unfold okp, acks. cbn [filter length piggy cancel_a set_atimers set_piggy]. pose proof (cnt_adel_le p M (piggy s) (rpeer r, a_token a)). lia.
-      * rewrite tail_ack in H. inv H. apply Hhit; [reflexivity|reflexivity|apply rpeer_ara].
+    + rewrite tail_ack in H. inv H. apply Hhit; [reflexivity|reflexivity|apply rpeer_ara].
     + rewrite tail_ack in H. inv H. apply Hhit; reflexivity.
   - destruct (no_response_of a). { inv H. apply okp_same; reflexivity. }
     eapply Hplain; eauto.
@@ -126,11 +124,8 @@ Proof. apply okp_same; reflexivity. Qed.
 Lemma send_response_acks p M s r req c rnr pl s' o : send_response s r req c rnr pl = (s', o) -> okp p M s s' o.
 Proof.
   unfold send_response. intros H.
-  match type of H with context [send_message ?s ?r ?a ?m ?q] => destruct (send_message s r a m q) as [[s1 o1] [e|]] eqn:E1 end.
-  - apply (send_message_acks p M) in E1; [|left; reflexivity].
-    match type of H with context [send_message ?s ?r ?a ?m ?q] => destruct (send_message s r a m q) as [[s2 o2] e2] eqn:E2 end.
-    apply (send_message_acks p M) in E2; [|left; reflexivity]. inv H. eapply okp_trans; eauto.
-  - inv H. eapply send_message_acks; [exact E1|left; reflexivity].
+  match type of H with context [send_message ?s ?r ?a ?m ?q] => destruct (send_message s r a m q) as [[s1 o1] e] eqn:E1 end.
+  inv H. eapply send_message_acks; [exact E1|left; reflexivity].
 Qed.
 
 Lemma okp_ext p M s0 s s' o : piggy s0 = piggy s -> okp p M s0 s' o -> okp p M s s' o.
@@ -263,8 +258,7 @@ Qed.
 
 Lemma tm_dispatch_error_acks p M s pe e s' o : tm_dispatch_error s pe e = (s', o) -> piggy s' = piggy s /\ acks p M o = 0%nat.
 Proof.
-  unfold tm_dispatch_error. intros H. destruct (existsb _ (outgoing s)). { inv H. auto. }
-  inv H. split; [reflexivity|]. rewrite acks_app.
+  unfold tm_dispatch_error. intros H. inv H. split; [reflexivity|]. rewrite acks_app.
   assert (H1 : forall l, acks p M (fail_all l pe e) = 0%nat).
   { induction l as [|[[? ?] [? ?]] l IH]; cbn; [reflexivity|]. destruct (oz_eqb _ _); auto. }
   assert (H2 : forall l, acks p M (cancel_all l pe) = 0%nat).
